@@ -70,6 +70,9 @@ def main():
             ctx = Ctx(facts, prop, tier, cfg)
             try:
                 mod.run(ctx)
+                if cfg == "default" and getattr(mod, "WITNESSES", False) and (tier == "thorough" or getattr(mod, "WITNESSES") == "quick"):
+                    import witness
+                    extra["witnesses"] = witness.add_obligations(ctx, a.repo, prop)
             except AnchorLost as e:
                 anchor_lost = "%s (config %s)" % (e, cfg)
             ctxs.append(ctx)
